@@ -7,7 +7,7 @@ from . import inherit_spec as IS
 from . import c06
 
 ID = 'C07'
-ENGINE_B = {'template': 't_inherit', 'kinds': ['forward_', 'asref_'], 'max_quick': 6, 'max_thorough': 32}
+ENGINE_B = {'template': 't_inherit', 'kinds': ['forward_', 'asref_'], 'max_quick': 12, 'max_thorough': 64}
 EXPLANATION = ('Template t_inherit with impl blocks on the bases and on the derived type (public or private), one or two bases with or without '
                'vftables, name clashes between the bases\' functions and between base virtual functions and the derived table, and a '
                'second-level derived type.  For each leaf the solver shows that the path condition admits exactly one description; the '
